@@ -3,22 +3,12 @@ import hashlib as _hashlib, json as _json, os as _os, subprocess as _subprocess,
 from concurrent.futures import ThreadPoolExecutor as _Pool
 
 
-def _gatt_builder(t, chk):
-    """builds <name> = driver object (repo independent) + N generated declaration objects (compiled against the repo)"""
+def _gatt_driver_obj(chk, fuzz):
+    """the generic driver (reference model + rapidcheck / libFuzzer entry) does not include repo headers: built once per /verif state"""
     root = chk.ROOT
-    _sys.path.insert(0, _os.path.join(root, 'gen'))
-    import gattgen
-    import random
-    tier = chk.CURRENT.get('tier', 'quick')
-    seed = chk.CURRENT.get('seed', 1)
-    replay = chk.CURRENT.get('replay')
-    exclude = tuple(x for x in chk.CURRENT.get('exclude', '').split(',') if x)
-    fuzz = bool(t.get('fuzz'))
     flags = list(chk.BASE_FLAGS) + list(chk.SAN_FLAGS) + (['-fsanitize=fuzzer-no-link', '-DVG_FUZZ'] if fuzz else [])
     bdir = _os.path.join(chk.CACHE, 'build')
     _os.makedirs(bdir, exist_ok=True)
-
-    # 1. driver object: independent of the repo
     drv_src = _os.path.join(root, 'engines/gatt/gatt_driver.cpp')
     dkey = _hashlib.sha256((chk.file_hash([drv_src] + [_os.path.join(root, 'lib', f) for f in ('att_model.hpp', 'gatt_if.hpp', 'verif.hpp', 'prelude.hpp')]) + ' '.join(flags)).encode()).hexdigest()[:16]
     ddir = _os.path.join(bdir, 'norepo-gattdriver-' + dkey)
@@ -35,6 +25,33 @@ def _gatt_builder(t, chk):
         chk.log('built gatt driver in %.1fs' % (_time.time() - t0))
     else:
         _os.utime(ddir)
+    return dobj
+
+
+def _gatt_setup(chk):
+    with _Pool(max_workers=2) as ex:
+        list(ex.map(lambda f: _gatt_driver_obj(chk, f), [False, True]))
+
+
+SETUP_HOOKS.append(_gatt_setup)
+
+
+def _gatt_builder(t, chk):
+    """builds <name> = driver object (repo independent) + N generated declaration objects (compiled against the repo)"""
+    root = chk.ROOT
+    _sys.path.insert(0, _os.path.join(root, 'gen'))
+    import gattgen
+    import random
+    tier = chk.CURRENT.get('tier', 'quick')
+    seed = chk.CURRENT.get('seed', 1)
+    replay = chk.CURRENT.get('replay')
+    exclude = tuple(x for x in chk.CURRENT.get('exclude', '').split(',') if x)
+    fuzz = bool(t.get('fuzz'))
+    flags = list(chk.BASE_FLAGS) + list(chk.SAN_FLAGS) + (['-fsanitize=fuzzer-no-link', '-DVG_FUZZ'] if fuzz else [])
+    bdir = _os.path.join(chk.CACHE, 'build')
+    _os.makedirs(bdir, exist_ok=True)
+
+    dobj = _gatt_driver_obj(chk, fuzz)
 
     # 2. the declarations
     specs = []
